@@ -607,6 +607,29 @@ def r_borrowed_r14_17(idx, r):
     r4_overrides(idx, Only(r, ["Assembly.insert"]))
 
 
+def r18_flag_entries_number_zero_pool_place(idx, r):
+    """(a) `stationaryBlockFlags` lists alternatives: Core.processLoading keeps one Flags value per entry (a block is stationary when it has
+    ANY of them; folding the entries into one mask demands all at once, and with two entries no block stays).  (b) Core.getAssembly finds
+    an assembly by its number, 0 included: the number is compared, never tested for truth.  (c) SpentFuelPool.add keeps the cell an assembly
+    already occupies on the pool's own grid (clause of R04.7): a pool rebuilt from a database, or an assembly placed at a chosen cell."""
+    from ..astutil import truthiness_uses
+    from ..report import Only
+    from .c04 import r7_locator_kept_on_add as r7_child_locator
+    f = idx.method(CORE, "processLoading")
+    apps = [c for c in iter_calls(f.node) if norm(c.func) == "stationaryBlockFlags.append"]
+    folds = [x for x in walk_local(f.node) if isinstance(x, ast.AugAssign) and "stationaryBlockFlags" in norm(x.target)]
+    if not apps:
+        raise AnchorMissing("processLoading: stationaryBlockFlags.append")
+    conds = [norm(t) for t, _p in path_conditions(f.node, apps[0])]
+    r.require(not conds and not folds and "fromString" in norm(propagate(apps[0].args[0], single_assign_env(f.node))), "processLoading:one-flag-value-per-stationary-entry", f, node=(folds[0] if folds else apps[0]),
+              msg="the entries of stationaryBlockFlags are folded into one mask: hasFlags(mask) asks for ALL of them, so with two entries no block is stationary and grid plates travel with their assemblies")
+    g = idx.method(CORE, "getAssembly")
+    uses = truthiness_uses(g.node, {"assemNum"})
+    r.require(not uses, "getAssembly:number-compared-not-truth-tested", g, node=uses[0] if uses else None,
+              msg="`assemNum` is evaluated for truth: the assembly with number 0 can never be found by its number")
+    r7_child_locator(idx, Only(r, ["SpentFuelPool.add"]))
+
+
 def run(idx, chk):
     chk.explanation = (
         "C14: who may write childrenByLocator/assembliesByName/blocksByName; Core.add/removeAssembly touching every table exactly once on "
@@ -643,3 +666,5 @@ def run(idx, chk):
                  necessary="a repeated shuffle puts every assembly where the file says; pool assemblies stay findable by name; none is lost")
     chk.run_rule("R14.17", "clause of C01: Assembly.insert reaches the base primitive with the same object (R01.4)", lambda r: r_borrowed_r14_17(idx, r), floor=1,
                  necessary="a block inserted into an assembly is listed once, where it was put")
+    chk.run_rule("R14.18", "one Flags value per stationary entry; assembly number 0 is a number; the pool keeps a pre-set cell of its own grid (R04.7)", lambda r: r18_flag_entries_number_zero_pool_place(idx, r), floor=3,
+                 necessary="stationary blocks stay where they are; every assembly is found by its number and at its recorded place")
